@@ -38,8 +38,11 @@ var histDocs = []*doc.Tree{
 	doc.Build([]doc.Spec{{K: "e", N: "a", A: []doc.AttrS{{N: "x", V: "1"}, {N: "y", V: "2"}}, C: []doc.Spec{
 		{K: "e", N: "b", C: []doc.Spec{{K: "t", V: "1"}}}, {K: "c", V: "c"},
 		{K: "e", N: "a", A: []doc.AttrS{{N: "x", V: "3"}}, C: []doc.Spec{{K: "e", N: "b"}, {K: "t", V: "2"}}}, {K: "e", N: "b"}}}}),
-	doc.Build([]doc.Spec{{K: "e", N: "b", C: []doc.Spec{
-		{K: "e", N: "a", A: []doc.AttrS{{N: "x", V: "1"}}, C: []doc.Spec{{K: "e", N: "a", C: []doc.Spec{{K: "t", V: "x"}}}}}, {K: "e", N: "a"}}}}),
+	// same names at the same positions as the first document, but different
+	// sibling counts and values (so that anything memoised per position collides)
+	doc.Build([]doc.Spec{{K: "e", N: "a", A: []doc.AttrS{{N: "x", V: "2"}}, C: []doc.Spec{
+		{K: "e", N: "b", C: []doc.Spec{{K: "t", V: "x"}, {K: "e", N: "b"}}},
+		{K: "e", N: "a", A: []doc.AttrS{{N: "x", V: "1"}}, C: []doc.Spec{{K: "e", N: "b"}, {K: "e", N: "b"}, {K: "e", N: "b", C: []doc.Spec{{K: "t", V: "1"}}}}}}}}),
 }
 
 // histCtxs: root, an inner element, a leaf, an attribute of each document.
@@ -184,7 +187,7 @@ func c04Exprs(tier string) []string {
 		"count(reverse(*))", "string(count(*))", "concat(string(a), name(b))", "not(not(a))", "count(//a[b])", "count(//a[count(b) > 0])", "sum(*/@x)", "boolean(count(a) = 1)",
 		"//a[count(*) = 2]", "//a[b = '1']", "//*[. = '1']", "//*[@x = 1]", "//*[@x > 1][1]", "//a[not(b)]", "//*[name() = 'b']", "//*[string-length(.) > 0]",
 		"//a[b and @x]", "//a[b or @y]", "//*[following-sibling::b]", "//*[preceding::a][ancestor::a]", "//*[a | b]", "//*[*/(a, b)]", "//*[contains(., '1')]",
-		"position()", "last()", "//*[position()]", "*[last() - 1]", ".", "..", "/", "@*", "text()", "comment()", "node()", "self::a", "'lit'", "1 + 1", "true()",
+		"position()", "last()", "//*[position()]", "*[last() - 1]", "//b[last()]", "//b[position() < last()]", "//*[last()][1]", "*/*[last()]", "//b[position() = last() - 1]", "count(//b[last()])", "//*[b[last()]]", ".", "..", "/", "@*", "text()", "comment()", "node()", "self::a", "'lit'", "1 + 1", "true()",
 	)
 	// every node-set shape wrapped so that it is evaluated ON THE SHARED TREE
 	// (comparisons, arithmetic and boolean operators iterate their operands in
